@@ -480,6 +480,18 @@ impl ContinuityStore {
             return Ok(events);
         }
 
+        // The fallback rewrites the sidecar from what the log holds now. Appends (log, then
+        // sidecar) must not run in between, or the rebuild overwrites their frames with a stale
+        // but gap-free prefix that later reads believe.
+        let _append_guard = self.next_seq.lock().expect("continuity seq mutex");
+        if let Ok(Some(events)) = self.stream_cache.try_replay(continuity_id) {
+            return Ok(events);
+        }
+        self.replay_events_from_log_and_rebuild(continuity_id)
+    }
+
+    // Caller holds the `next_seq` (append) mutex.
+    fn replay_events_from_log_and_rebuild(&self, continuity_id: &str) -> io::Result<Vec<Event>> {
         let events = self
             .event_log
             .replay_stream(StreamKind::Continuity, continuity_id)?;
@@ -3545,7 +3557,11 @@ impl ContinuityStore {
             return Ok(last_seq.saturating_add(1));
         }
 
-        let events = self.replay_events(continuity_id)?;
+        // Called with the `next_seq` mutex held, so not through `replay_events`.
+        let events = match self.stream_cache.try_replay(continuity_id) {
+            Ok(Some(events)) => events,
+            _ => self.replay_events_from_log_and_rebuild(continuity_id)?,
+        };
         let last = events.last().ok_or_else(|| {
             io::Error::new(io::ErrorKind::NotFound, "continuity stream does not exist")
         })?;
